@@ -440,8 +440,9 @@ pub fn parse_unix_filename(s: &str) -> &str {
 pub fn has_extension(file_name: &str, extensions: &Vec<String>) -> bool {
     let s = file_name.to_ascii_lowercase();
 
+    // letter case counts on neither side, however the extension is spelt in the configuration
     for ext in extensions {
-        if s.ends_with(ext) {
+        if s.ends_with(&ext.to_ascii_lowercase()) {
             return true;
         }
     }
